@@ -156,6 +156,18 @@ func VxH_C12_twin(op int) {
 			xsync.VxAssert(va == vb && ea == eb, "twins: stored (value, expiry)")
 		}
 	}
+	// read-only views of the two post-states
+	ia, ib := a.Items(), b.Items()
+	xsync.VxAssert(len(ia) == len(ib), "twins: Items size")
+	for i := 0; i < 3; i++ {
+		va, oka := ia[kk[i]]
+		vb, okb := ib[kk[i]]
+		xsync.VxAssert(oka == okb && va == vb, "twins: Items content")
+	}
+	na, nb := 0, 0
+	a.Range(func(string, interface{}) bool { na++; return true })
+	b.Range(func(string, interface{}) bool { nb++; return true })
+	xsync.VxAssert(na == nb, "twins: Range visits")
 	xsync.VxReach("end")
 }
 
